@@ -290,8 +290,8 @@ def tasks(tier):
                'libssh': [(None, ''), ('rc1', '')]}
     for p in prods:
         for pa, pb in patches[p]:
-            for a, b in ([((1, 1), (1, 1)), ((1, 2), (1, 1)), ((1, 1), (2, 1))] if tier == 'quick' else
-                         [((1, 1), (1, 1)), ((1, 2), (1, 1)), ((1, 1), (2, 1)), ((2, 1), (1, 1)), ((1, 1, 1), (1, 1, 1)), ((1, 1, 2), (1, 1, 1)), ((4, 2), (4, 2))]):
+            for a, b in ([((1, 1), (1, 1)), ((1, 2), (1, 1)), ((1, 1), (2, 1)), ((2,), (1,)), ((1,), (1,))] if tier == 'quick' else
+                         [((1, 1), (1, 1)), ((1, 2), (1, 1)), ((1, 1), (2, 1)), ((2, 1), (1, 1)), ((1, 1, 1), (1, 1, 1)), ((1, 1, 2), (1, 1, 1)), ((4, 2), (4, 2)), ((2,), (1,)), ((1,), (1,)), ((1,), (2,)), ((1, 1), (1,))]):
                 T.append(Order(p, a, b, pa, pb))
     tsh = [(1, 1), (1, 2), (2, 1)] if tier == 'quick' else [(1, 1), (1, 2), (2, 1), (1, 1, 1), (1, 2, 1), (2, 2)]
     for a, b, c in itertools.product(tsh, repeat=3):
